@@ -20,7 +20,7 @@ from concurrent.futures import ThreadPoolExecutor
 import common as C
 from common import f2b, b2f
 
-REQUIRE_PROPS = False   # True: a missing coq/Props/C06.v is a broken obligation
+REQUIRE_PROPS = True   # True: a missing coq/Props/C06.v is a broken obligation
 
 HEADER = ("Require Import JF.Base.F64 JF.Model.Time JF.Model.Heap JF.Model.Sched JF.Model.SchedCases.\n"
           "Open Scope Z_scope.")
@@ -438,8 +438,9 @@ def stream_fill(g, length):
     rng = g.rng
     target = rng.choice(FILL_TARGETS)
     hot = rng.randrange(g.nh)
+    fresh = rng.random() < 0.5         # the overflowing handler has no entry in the array at all
     while g.nfinite < target:
-        free = g.free_hds()
+        free = [h for h in g.free_hds() if not (fresh and h == hot)]
         live = g.live_hds()
         if free and (rng.random() < 0.6 or not live):
             hd = hot if (hot in free and rng.random() < 0.3) else rng.choice(free)
@@ -528,6 +529,21 @@ def repair(ops):
 
 # ----------------------------------------------------------------------------------------------
 # oracle + case term of one sequence
+def show(ob):
+    """Readable form of one observation."""
+    try:
+        if ob[0] == "got":
+            t = (ob[4], ob[5]) if ob[2] is None else (ob[2], ob[3])
+            return "handler %d (pushed at %s)" % (ob[1], tstr((b2f(t[0]), b2f(t[1]))))
+        if ob[0] == "exc":
+            return "exception code %d (%s)" % (ob[1], ob[2] if len(ob) > 2 else "")
+        if ob[0] == "none":
+            return "None"
+    except Exception:  # noqa
+        pass
+    return repr(ob)
+
+
 def obs_term(ob, bits):
     if ob[0] == "none":
         return "BNone"
@@ -557,9 +573,10 @@ def analyse(ops, out, meta=None):
     def expect(name, k, ob, code):
         if code is None:
             if ob != ["none"]:
-                bad("exception", k, "%s: op %d %r gave %r, expected None" % (name, k, ops[k], ob))
+                bad("exception", k, "%s: op %d %r gave %s, expected None" % (name, k, ops[k], show(ob)))
         elif ob[:2] != ["exc", code]:
-            bad("exception", k, "%s: op %d %r gave %r, expected exception code %d" % (name, k, ops[k], ob, code))
+            bad("exception", k, "%s: op %d %r gave %s, expected exception code %d"
+                % (name, k, ops[k], show(ob), code))
 
     def check_get(ref, name, k, ob):
         live = ref.live
@@ -587,16 +604,16 @@ def analyse(ops, out, meta=None):
         what = "finite live" if ref.kind == "heap" else "live"
         if not live:
             if ob[:2] != ["exc", 0]:
-                bad("empty", k, "%s: op %d get_succeeding_event on a scheduler without %s event gave %r instead "
-                    "of the 'does not contain any events' SchedulerError" % (name, k, what, ob))
+                bad("empty", k, "%s: op %d get_succeeding_event on a scheduler without %s event gave %s instead "
+                    "of the 'does not contain any events' SchedulerError" % (name, k, what, show(ob)))
             else:
                 st["empty_errors"] += 1
             return bits
         m, mh = ref.min()
         if lt(m, ref.last):
             if ob[:2] != ["exc", 1]:
-                bad("guard", k, "%s: op %d minimal live time %s is smaller than the last returned %s but get gave %r"
-                    % (name, k, tstr(m), tstr(ref.last), ob))
+                bad("guard", k, "%s: op %d minimal live time %s is smaller than the last returned %s but get gave %s"
+                    % (name, k, tstr(m), tstr(ref.last), show(ob)))
             else:
                 st["guard_fired"] += 1
             return bits
@@ -605,8 +622,8 @@ def analyse(ops, out, meta=None):
                 bad("lost-event", k, "%s: op %d claims to be empty but handler %d has a %s event at %s"
                     % (name, k, mh, what, tstr(m)))
             else:
-                bad("guard", k, "%s: op %d gave %r although the minimal live time %s is not smaller than the last "
-                    "returned %s" % (name, k, ob, tstr(m), tstr(ref.last)))
+                bad("guard", k, "%s: op %d gave %s although the minimal live time %s is not smaller than the last "
+                    "returned %s" % (name, k, show(ob), tstr(m), tstr(ref.last)))
             return bits
         if rt is None:
             bad("trashed", k, "%s: op %d returned handler %d which has no live event (trashed or never pushed)"
@@ -720,8 +737,8 @@ def analyse(ops, out, meta=None):
                         bad("agree", k, "op %d: HeapScheduler returned handler %d at %s, ListScheduler handler %d at "
                             "%s" % (k, oh[1], tstr(th), ol[1], tstr(tl)))
                 elif not (oh[:2] == ["exc", 1] and ol[:2] == ["exc", 1]):
-                    bad("agree", k, "op %d: a finite live event exists but HeapScheduler gave %r and ListScheduler "
-                        "%r" % (k, oh, ol))
+                    bad("agree", k, "op %d: a finite live event exists but HeapScheduler gave %s and ListScheduler "
+                        "%s" % (k, show(oh), show(ol)))
             fop = "FGet"
         else:
             bad("driver", k, "unknown op %r" % (op,))
@@ -1141,17 +1158,31 @@ def run(ctx, seqs_override=None):
         gi, rule, k, msg = min(oracle_fails, key=lambda f: len(seqs[f[0]]))
         shr = shrink_oracle(ctx, seqs[gi], rule)
         r, e = run_chunk(ctx, [shr], timeout=300)
-        shr_msg, impl = msg, None
+        shr_msg, impl, f = msg, None, None
         if r is not None and r.get("out"):
             f = analyse(shr, r["out"][0], r["meta"][0])["fail"]
             impl = r["out"][0]
             if f:
                 shr_msg = f[2]
+        san = None
+        if rule == "spare-slot" and f and f[0] == "spare-slot":
+            # make the invalid access happen: a handler without any entry overflows its counter, so that
+            # delete_events heapifies the full array and writes heap_entries[length] with length == size
+            fresh = 1 + max([op[3] for op in shr if op[0] == "push"] + [0])
+            ext = shr[:f[1] + 1] + [["bump", fresh, TWO32], ["push", f2b(1.0), f2b(0.5), fresh]]
+            san = sanitizer_replay(ctx, ext)
+            if san.get("error_reported"):
+                shr = ext
+                shr_msg += "; replayed at the C level under ASan/UBSan with a counter overflow appended: " \
+                           "invalid memory access reported"
+                impl = None
+            else:
+                san = None
         C.violation(ctx, "oracle", {"kind": "c06-seqs", "seqs": [shr], "stream": streams[gi], "rule": rule,
                                     "message": shr_msg, "original_message": msg, "original_length": len(seqs[gi]),
                                     "impl_result": impl, "n_failing": len(oracle_fails),
-                                    "failing_rules": sorted(set(f[1] for f in oracle_fails)),
-                                    "sanitizer": sanitizer_replay(ctx, shr)},
+                                    "failing_rules": sorted(set(x[1] for x in oracle_fails)),
+                                    "sanitizer": san or sanitizer_replay(ctx, shr)},
                     "C06 fails on the implementation: " + shr_msg[:300], nofail=False)
     elif mism_all and not crashes_all:
         gi = min(mism_all, key=lambda i: len(seqs[i]))
